@@ -174,6 +174,31 @@ func genCase(t *rapid.T) Case {
 		c.Extra = rapid.SampledFrom([]int{0, 0, 1, 2}).Draw(t, "extra")
 		lim = 480
 	}
+	// a small configuration far from the origin (exact integer translation): the distance
+	// is that of the small shape, the coordinate scale that of the offset
+	small := true
+	for _, p := range c.P {
+		for _, v := range p {
+			if v > 256 || v < -256 {
+				small = false
+			}
+		}
+	}
+	if small && rapid.IntRange(0, 2).Draw(t, "offset") == 0 {
+		var o [3]int64
+		for d := range o {
+			o[d] = rapid.Int64Range(1<<20, 1<<30).Draw(t, "off")
+			if rapid.Bool().Draw(t, "offneg") {
+				o[d] = -o[d]
+			}
+		}
+		for i := range c.P {
+			for d := range o {
+				c.P[i][d] += o[d]
+			}
+		}
+		c.Class += "+offset"
+	}
 	if rapid.IntRange(0, 3).Draw(t, "scaled") == 0 {
 		c.Exp = rapid.SampledFrom([]int{-lim, lim, -lim / 2, lim / 2, 260, -260, 100, -100, 30, -30}).Draw(t, "exp")
 		if c.Exp > lim || c.Exp < -lim || rapid.Bool().Draw(t, "expany") {
@@ -228,8 +253,8 @@ func c2(p [3]int64) geom.Coord { return geom.Coord{sc(float64(p[0])), sc(float64
 func c3(p [3]int64) geom.Coord {
 	return geom.Coord{sc(float64(p[0])), sc(float64(p[1])), sc(float64(p[2]))}
 }
-func e2(p [3]int64) exact.P2   { return exact.Pt(float64(p[0]), float64(p[1])) }
-func e3(p [3]int64) exact.P3   { return exact.Pt3(float64(p[0]), float64(p[1]), float64(p[2])) }
+func e2(p [3]int64) exact.P2 { return exact.Pt(float64(p[0]), float64(p[1])) }
+func e3(p [3]int64) exact.P3 { return exact.Pt3(float64(p[0]), float64(p[1]), float64(p[2])) }
 
 func scaleOf(c Case, dims int) float64 {
 	s := 0.0
